@@ -747,6 +747,14 @@ func (e *kvElection) StopWithContext(ctx context.Context, opts StopOptions) erro
 		}
 	}
 
+	// Leadership was given up above. Whichever way this call ends, OnDemote is due exactly once:
+	// the paths that return an error run it in the background.
+	demoteOnAbort := func() {
+		if wasLeader {
+			go e.notifyDemoted("stop_with_context_aborted")
+		}
+	}
+
 	done := make(chan struct{})
 	go func() {
 		e.wg.Wait()
@@ -762,6 +770,7 @@ func (e *kvElection) StopWithContext(ctx context.Context, opts StopOptions) erro
 				zap.Duration("timeout", timeout),
 			)...,
 		)
+		demoteOnAbort()
 		return fmt.Errorf("shutdown timeout exceeded: %v", timeout)
 	case <-ctx.Done():
 		log := e.getLogger()
@@ -770,6 +779,7 @@ func (e *kvElection) StopWithContext(ctx context.Context, opts StopOptions) erro
 				zap.Error(ctx.Err()),
 			)...,
 		)
+		demoteOnAbort()
 		return ctx.Err()
 	}
 
